@@ -276,7 +276,15 @@ fn walk_blocks(tokens: &[Token], out: &mut Vec<Value>) {
                     blk("else", e, out, true)
                 }
             }
-            Token::Import { block, .. } => {
+            Token::Import { block, args, .. } => {
+                // comments on the Located wrapper of a named import argument (the formatter used only its .data)
+                if let mos_core::parser::ImportArgs::Specific(list) = args {
+                    for (arg, _) in list {
+                        for c in trivia_comments(&arg.trivia) {
+                            out.push(json!({"text": c, "owner": "import-arg"}));
+                        }
+                    }
+                }
                 if let Some(b) = block {
                     blk("import", b, out, true)
                 }
